@@ -176,3 +176,32 @@ class Expressions(Contract):
         yield "exported_array_is_consistent", eq(out["exported"], spec1)
         yield "copy_is_independent_of_later_updates", eq(out["copy_after_set"], spec0)
         yield "expression_parameters_do_not_vary", all(out["vary"][i] == (not case["deps"][i]) for i in range(n))
+
+
+def _expressions_replaced_later(self, tier, seed):
+    """B: the dependency order is that of the expressions *as they are now*: after the expression of an existing expression
+    parameter is replaced (so that it depends on a parameter declared later), a value update gives every expression parameter
+    the value of its current expression, and a second update changes nothing."""
+    from glotaran.parameter import Parameters
+
+    bad, n = None, 0
+    for first, second, a_new in ((("$a + 1", "$a * 10"), ("$c + 1", "$a * 10"), 3.0), (("$a * 2", "$b + 5"), ("$c - 1", "$a + 5"), -2.0), (("$a", "$a"), ("$c * $c", "$a + 1"), 4.0)):
+        n += 1
+        p = Parameters.from_dict({"a": [["a", 2.0]], "b": [["b", 0.0, {"expr": first[0].replace("$a", "$a.a")}]], "c": [["c", 0.0, {"expr": first[1].replace("$a", "$a.a").replace("$b", "$b.b")}]]})
+        p.update_parameter_expression()
+        fix = lambda e: e.replace("$a", "$a.a").replace("$b", "$b.b").replace("$c", "$c.c")  # noqa: E731
+        p.get("b.b").expression = fix(second[0])
+        p.get("c.c").expression = fix(second[1])
+        p.set_from_label_and_value_arrays(["a.a"], [a_new])
+        env = {"a": a_new}
+        env["c"] = eval(second[1].replace("$", ""), {}, dict(env))
+        env["b"] = eval(second[0].replace("$", ""), {}, dict(env))
+        got = {k: float(p.get(f"{k}.{k}").value) for k in "abc"}
+        p.update_parameter_expression()
+        again = {k: float(p.get(f"{k}.{k}").value) for k in "abc"}
+        if got != env or again != env:
+            bad = bad or {"expressions_at_construction": first, "expressions_now": second, "a": a_new, "values": got, "after_a_second_update": again, "expected": env}
+    return [{"name": "bounded_values_follow_the_expressions_as_they_are_now", "ok": bad is None and n > 0, "case": f"{n} parameter sets whose expressions are replaced after construction", "function": "glotaran.parameter.parameters:Parameters.update_parameter_expression", "witness": bad, "detail": "bounded stand-in: native histories construct / replace expressions / update values"}]
+
+
+Expressions.bounded_checks = _expressions_replaced_later
